@@ -92,6 +92,15 @@ func execute(k kase) (*fail, string) {
 			return &fail{"tree-differs", describeAll(want), why}, rep
 		}
 		return nil, rep
+	case "symmodel":
+		sp := unq(k.Text)
+		st := readStrict(sp)
+		want, got := modelReadable(sp), readerSaysSymbol(sp, st)
+		rep := fmt.Sprintf("spelling %s: model says readable-as-one-symbol=%v, strict reader: %s", k.Text, want, short(st.String()))
+		if want != got {
+			return &fail{"symmodel", fmt.Sprintf("readable as one symbol = %v", want), short(st.String())}, rep
+		}
+		return nil, rep
 	case "boundary":
 		if k.B == nil {
 			return nil, "no boundary case"
@@ -265,6 +274,7 @@ func run(r *core.Run) {
 	r.Assume("layout = the separators between complete expressions and brackets; the gap between a prefix (' #' #^) and its operand is part of the text's identity, not layout; the empty separator is layout only next to a bracket; a glued comment only after a bracket")
 	r.Assume("whitespace = unicode.IsSpace, the class the unchanged scanner's AcceptSpace skips (enumerated from the Go unicode tables, not from the code under test); a comment runs to LF, so every comment separator ends in LF and a bare CR never ends a comment")
 	r.Assume("UNSPECIFIED: whether a hash-bang line is honoured after leading comments (ParseProgram documents 'potentially preceded by a hash-bang'): leading layout is not varied for sequences that start with #!")
+	r.Assume("'readable symbol spelling' is decided by an independent predicate written from docs/lang.md and the unchanged lexer's character classes (drivers/c12/symmodel.go), never by the reader under test; the reader is compared with it on every enumerated spelling")
 	r.Assume("UNSPECIFIED: non-finite floats, bytes, maps, vectors, functions (outside the statement's value set); unreadable symbol spellings (only reader agreement is checked)")
 	r.Assume("DOCUMENTED LIMIT: token.DefaultBufSize — one lexical item (token, comment, whitespace run) of 128 KiB or more may be rejected by the production reader; it may not be accepted with a different tree")
 
@@ -333,13 +343,13 @@ func run(r *core.Run) {
 
 	phase("V-string")
 	// ------------------------------------------------------------- V-symbol
-	symLen, wideLen := 4, 2
+	symLen, wideLen, signLen := 4, 2, 5
 	if thorough {
-		symLen, wideLen = 5, 3
+		symLen, wideLen, signLen = 5, 3, 7
 	}
 	r.Bound("V-symbol.contexts", len(symContexts))
 	var readable, unreadable int64
-	symbolRun := func(name string, alpha []string, maxLen int) {
+	symbolRun := func(name string, alpha []string, maxLen int, contexts map[string]bool) {
 		nsym := spellingCountOver(alpha, maxLen)
 		r.Bound("V-symbol."+name+".alphabet", strings.Join(alpha, " "))
 		r.Bound("V-symbol."+name+".max_len", maxLen)
@@ -348,8 +358,14 @@ func run(r *core.Run) {
 			s := spellingOver(alpha, i)
 			w.t.states++
 			st := w.readOne(s, &seqOpts{domain: "symbol-spelling"})
-			isSym := st.ok && len(st.exprs) == 1 && func() bool { ok, _ := symN(s, 0).same(st.exprs[0]); return ok }()
 			r.Nontrivial("spelling\x00" + s)
+			// the independent model decides what is a symbol; the reader is compared with it
+			isSym := modelReadable(s)
+			w.t.traces++
+			if got := readerSaysSymbol(s, st); got != isSym {
+				report(r, "symbol-spelling:reader-disagrees-with-model:"+shape(s), kase{Kind: "symmodel", Text: qtext(s)},
+					&fail{"symmodel", fmt.Sprintf("model: %q readable as one symbol = %v", s, isSym), short(st.String())})
+			}
 			if !isSym {
 				switch {
 				case !st.ok:
@@ -366,23 +382,28 @@ func run(r *core.Run) {
 			readable++
 			skMu.Unlock()
 			w.t.outcomes["symbol-spelling:readable"]++
-			// a readable symbol is a value: full value round trip, alone and nested/quoted
+			// a readable symbol is a value: full value round trip through all three readers, bare, in lists, quoted
 			valueCase(r, w.t, symN(s, 0), "symbol", false, true)
+			valueCase(r, w.t, listN(1, &node{k: kInt, i: 1}, symN(s, 0), &node{k: kStr, s: "s"}), "symbol-in-list", false, true)
 			valueCase(r, w.t, listN(2, symN(s, 3), listN(0, symN(s, 1))), "symbol-nested", false, true)
 			for ci := range symContexts {
 				c := &symContexts[ci]
+				if contexts != nil && !contexts[c.id] {
+					continue
+				}
 				toks := c.toks(s)
 				lv := lvSingles
-				if len(toks) <= 3 {
+				if len(toks) <= 3 && contexts == nil {
 					lv = lvProduct
 				}
 				w.process(toks, &seqOpts{level: lv, frames: true, expect: c.expect(s), domain: "symctx:" + c.id, symbol: shape(s), symText: s,
-					ws: len(toks) <= 3 && (thorough || len(s) <= 2)})
+					ws: contexts == nil && len(toks) <= 3 && (thorough || len(s) <= 2)})
 			}
 		})
 	}
-	symbolRun("small", symAlphabet, symLen)
-	symbolRun("wide", symAlphabetWide, wideLen)
+	symbolRun("small", symAlphabet, symLen, nil)
+	symbolRun("wide", symAlphabetWide, wideLen, nil)
+	symbolRun("sign-colon", symAlphabetSign, signLen, map[string]bool{"paren": true, "pair": true, "before-open": true, "quoted": true})
 	extra["symbol_spellings_readable"] = readable
 	extra["symbol_spellings_unreadable"] = unreadable
 
